@@ -132,6 +132,7 @@ def run(ctx):
                                 % (has_snip, [short(c.name) for c in rewriters]), ["%s:%d" % (fb.file, pl[3])])
         r.floor(B, n, 1, "Ok results of return_macro_parse_failure_fallback")
 
+    placeholder_guard(ctx, "R01-d")
     C = r.rule("R01-c", "no defaulted sub-rewrite: a RewriteResult / Option<String> returned by a Rewrite method is never turned into "
                         "an empty string (unwrap_or_default, unwrap_or(String::new()), unwrap_or_else(|_| String::new()))")
     latent = {e["fn"]: e["reason"] for e in tab.get("defaulted", [])}
@@ -177,3 +178,47 @@ def run(ctx):
                         [c.loc()])
     r.rules[C]["floor"] = 0
     r.note("R01-c: %d defaulted sub-rewrites found" % n)
+
+
+def placeholder_guard(ctx, rid):
+    """R01-d: the collision guard of the macro-variable un-substitution sees the same text the replacement touches"""
+    p, r = ctx.p, ctx.r
+    r.rule(rid, "MacroBranch::rewrite: placeholders are put back with a whole-text str::replace, so the guard that bails out on a "
+                "placeholder already present must be str::contains on the *whole* original body: its receiver derives from the "
+                "same trimmed snippet that was handed to replace_names, not from a filtered copy; and the guard dominates the replace")
+    f = p.fn("rustfmt_nightly::macros::MacroBranch::rewrite")
+    if f is None:
+        r.undecidable(rid, "MacroBranch::rewrite not found")
+        return
+    rn = [c for c in f.calls() if c.name.endswith("macros::replace_names")]
+    co = [c for c in f.calls() if c.name.endswith("str>::contains")]
+    rp = [c for c in f.calls() if c.name.endswith("str>::replace")]
+    if not rn or not rp:
+        r.undecidable(rid, "replace_names / str::replace not found in MacroBranch::rewrite")
+        return
+    body_src = f.derived_from(rn[0].args[0][1][0]) if rn[0].args[0][0] != "k" else {"locals": set(), "calls": []}
+    ok = False
+    detail = "no contains() guard"
+    for c in co:
+        if c.args[0][0] == "k":
+            continue
+        d = f.derived_from(c.args[0][1][0])
+        filtered = [x for x in d["calls"] if x.declared in ("std::iter::Iterator::filter", "std::iter::Iterator::collect",
+                                                           "std::iter::Iterator::filter_map", "std::iter::Iterator::map")
+                    or x.name.endswith("CharClasses::<T>::new") or x.name.endswith("LineClasses::<'a>::new")]
+        same_src = any(x.name.endswith("::snippet") for x in d["calls"]) and (d["locals"] & body_src["locals"])
+        from common import bool_branches
+        dom = False
+        for (sw, t_true, t_false) in bool_branches(f, c.dest[0]):
+            from common import edge_dominates
+            if all(edge_dominates(f, (sw, t_false), x.bb) or x.bb not in f.reachable(t_true, stop_blocks=[c.bb]) for x in rp):
+                dom = all(x.bb not in f.reachable(t_true, stop_blocks=[c.bb]) for x in rp)
+        if same_src and not filtered and dom:
+            ok = True
+        detail = "contains() receiver: snippet-derived=%s, filtered through %s, bails before replace=%s" % (
+            bool(same_src), [short(x.name)[-30:] for x in filtered], dom)
+    r.instance(rid, "MacroBranch::rewrite placeholder collision guard", "ok" if ok else "violation", "%s:%d" % (f.file, f.line), detail)
+    if not ok:
+        r.violation(rid, "MacroBranch::rewrite: placeholder guard does not cover the text the replacement rewrites",
+                    "%s — a `z<name>` occurring in a string literal or comment of the macro body is turned into `$<name>`" % detail,
+                    ["%s:%d" % (f.file, (co[0].line if co else f.line))])
